@@ -3,7 +3,9 @@ package main
 import (
 	"context"
 	"fmt"
+	"github.com/elementsproject/peerswap/swap"
 	"sync"
+	"sync/atomic"
 	"time"
 
 	goelectrum "github.com/checksum0/go-electrum/electrum"
@@ -244,6 +246,56 @@ func init() {
 			} else if st != "State_ClaimedCsv" && st != "setup-failed" {
 				res.addFinding("C18/"+role+"/no-refund/electrum-watcher-concurrent", "both handlers returned but no refund followed: final "+st, map[string]interface{}{"role": role})
 			}
+		}
+		// (g) the RPC commands wait for a state change with a timeout (WaitForStateChange): the timeout must end the
+		// wait whenever it fires, also right at the moment the waiter goes to sleep
+		{
+			w := newWorld(defaultCfg())
+			c := newCtx(w)
+			c.Run([]string{"new outSender btc"})
+			live, err := w.svc.GetActiveSwap(c.id)
+			iters := 40000
+			if n > 100 {
+				iters = 400000
+			}
+			if err == nil {
+				var progress int64
+				finished := make(chan struct{})
+				go func() {
+					for i := 0; i < iters; i++ {
+						live.WaitForStateChange(func(swap.StateType) bool { return false }, 0)
+						atomic.AddInt64(&progress, 1)
+					}
+					close(finished)
+				}()
+				stuck := int64(-1)
+				last, idle := int64(-1), 0
+			watch:
+				for {
+					select {
+					case <-finished:
+						break watch
+					case <-time.After(500 * time.Millisecond):
+						p := atomic.LoadInt64(&progress)
+						if p == last {
+							idle++
+							if idle >= 6 {
+								stuck = p
+								break watch
+							}
+						} else {
+							last, idle = p, 0
+						}
+					}
+				}
+				res.Evaluations++
+				res.Distinct++
+				res.Histogram["(g) timed waits"] += int(atomic.LoadInt64(&progress))
+				if stuck >= 0 {
+					res.addFinding("C18/rpc/wait-for-state-change-never-returns", "WaitForStateChange did not return although its timeout had fired (the wake-up was sent before the waiter slept)", map[string]interface{}{"iteration": stuck, "schedule": "WaitForStateChange(never, 0) in a loop on a swap at rest"})
+				}
+			}
+			w.close()
 		}
 		// (f) a watcher reports that the opening transaction did NOT confirm in time (error callback) to a taker
 		// that is waiting for it; then the peer's cancel arrives: both handlers return
